@@ -770,6 +770,20 @@ pub fn run_case<F: Family>(it: &mut Interp<F>, name: &str, seed: u64, cfg: &GenC
     if g.rng.below(3) == 0 && shapes.iter().any(|s| s.is_empty()) {
         it.exec(0, &Op::Insert { shape: vec![], ids: vec![] });
     }
+    // "slot churn" (C02): one slot's generation counter driven far up — case 7 of every run goes past
+    // 2^16 reuses of one slot (a counter narrower than the identifier's would wrap), one case in
+    // twelve a few dozen
+    if shapes.iter().any(|s| s.is_empty()) {
+        let big = name.rsplit('-').next().map(|k| k == "7").unwrap_or(false);
+        if big || g.rng.below(12) == 0 {
+            it.exec(0, &Op::Insert { shape: vec![], ids: vec![] });
+            if let Some(id) = it.issued[0].last().cloned() {
+                let n = if big { 66_000 } else { 1 + g.rng.below(40) };
+                it.exec(0, &Op::Raw("churn".into(), vec![fmt_id(id), n.to_string()]));
+                it.bump(if big { "churn-big" } else { "churn" });
+            }
+        }
+    }
     for _ in 0..cfg.ops {
         let w = if !multi {
             0
@@ -872,6 +886,16 @@ pub fn run_case<F: Family>(it: &mut Interp<F>, name: &str, seed: u64, cfg: &GenC
                 it.exec(w, &Op::Eq(o));
             }
             it.bump("drained");
+            continue;
+        }
+        // slot churn in the middle of a history: with other slots free, the rounds rotate through the
+        // free ring
+        if g.rng.below(100) < 1 && shapes.iter().any(|s| s.is_empty()) {
+            it.exec(w, &Op::Insert { shape: vec![], ids: vec![] });
+            if let Some(id) = it.issued[w].last().cloned() {
+                it.exec(w, &Op::Raw("churn".into(), vec![fmt_id(id), (1 + g.rng.below(25)).to_string()]));
+                it.bump("churn");
+            }
             continue;
         }
         // "ring churn" (C01/C02/C06/C10): rotate the allocator's free ring by alternating removals and
@@ -1133,7 +1157,7 @@ pub fn run_case<F: Family>(it: &mut Interp<F>, name: &str, seed: u64, cfg: &GenC
             Op::Probe(_) => "probe",
             Op::Len => "len",
             Op::Serde { .. } => "serde",
-            Op::Raw(n, _) => match n.as_str() { "q" => "q", "entryq" => "entryq", "entries" => "entries", "parq" => "parq", "res" => "res", "de" => "de", _ => "raw" },
+            Op::Raw(n, _) => match n.as_str() { "q" => "q", "entryq" => "entryq", "entries" => "entries", "parq" => "parq", "res" => "res", "de" => "de", "churn" => "churn", _ => "raw" },
         };
         *it.op_hist.entry(name).or_insert(0) += 1;
         let res = it.exec(w, &op);
